@@ -149,6 +149,89 @@ pub fn long_replays(quick: bool) -> Vec<AbsReplay> {
 	out
 }
 
+/// The "universe": the FULL cross product of small levels of every optional dimension of a replay
+/// (version class x port shape x frame-history shape x Gecko list x Game Ends x metadata x fill).
+/// Every check runs its own oracles over it, so no check is left with a base set that fixes one
+/// of these dimensions.
+pub fn universe(quick: bool) -> Vec<AbsReplay> {
+	use crate::ubj::MVal;
+	let versions: Vec<(u8, u8)> = if quick { vec![(0, 1), (1, 0), (2, 0), (2, 2), (3, 0), (3, 6), (3, 13), (3, 16)] } else { spec::v_rep() };
+	let port_shapes: Vec<Vec<PortCfg>> = vec![vec![pc(0, false)], vec![pc(0, true), pc(2, false)], vec![pc(1, false), PortCfg { port: 2, ics: false, ptype: 2 }, PortCfg { port: 3, ics: true, ptype: 1 }]];
+	let intl: crate::ubj::Meta = vec![("プレイヤー".into(), MVal::Str("ピーチ姫 é".into())), ("n".into(), MVal::Map(vec![("k".into(), MVal::Int(-7))]))];
+	let metas: Vec<Option<crate::ubj::Meta>> = vec![Some(default_meta()), None, Some(vec![]), Some(intl)];
+	let mut out = vec![];
+	for v in &versions {
+		let regime = spec::regime(*v);
+		let geckos: Vec<Gecko> = if spec::gte(*v, (3, 3)) { vec![Gecko::None, Gecko::Live { live: 700, nonzero_pad: true }, Gecko::Live { live: 1024, nonzero_pad: false }, Gecko::Live { live: 66000, nonzero_pad: false }] } else { vec![Gecko::None] };
+		for ports in &port_shapes {
+			for shape in 0..4usize {
+				// frame-history shapes
+				let mut a = base_replay(*v, ports.clone(), [0usize, 1, 3, 2][shape]);
+				match shape {
+					2 => {
+						// absence of a leader, then back; rollback; items
+						let last = ports.len() - 1;
+						a.frames[1].present[last][0] = false;
+						if ports[0].ics {
+							a.frames[0].present[0][1] = false;
+						}
+						if regime >= 1 {
+							a.frames[2].id = -123;
+						}
+						if regime == 2 {
+							a.frames[0].items = 1;
+							a.frames[2].items = 2;
+						}
+					}
+					3 => {
+						// everything absent that the regime allows, in the last frame
+						for (pi, p) in ports.iter().enumerate() {
+							if pi == 0 && regime == 0 && !p.ics {
+								continue;
+							}
+							a.frames[1].present[pi] = [false, false];
+						}
+						if regime == 0 && ports[0].ics {
+							a.frames[1].present[0][1] = true; // a frame needs an event before 2.2: Nana alone
+						}
+					}
+					_ => {}
+				}
+				if regime == 0 {
+					// before 2.2 a frame exists only through its events: keep at least one character in each
+					for f in a.frames.iter_mut() {
+						let any = f.present.iter().zip(ports.iter()).any(|(p, c)| p[0] || (c.ics && p[1]));
+						if !any {
+							f.present[0][0] = true;
+						}
+					}
+				}
+				for gk in &geckos {
+					for ends in 0..=2u8 {
+						for meta in &metas {
+							for fill in [Fill::A, Fill::Ones] {
+								if matches!(gk, Gecko::Live { live: 66000, .. }) && !(ends == 1 && fill == Fill::A && shape == 1 && meta.as_ref().map_or(false, |m| m.len() == 4)) {
+									continue;
+								}
+								if fill == Fill::Ones && quick && (shape != 2 || ends != 1) {
+									continue;
+								}
+								let mut b = a.clone();
+								b.gecko = *gk;
+								b.ends = ends;
+								b.metadata = meta.clone();
+								b.fill = fill;
+								out.push(b);
+							}
+						}
+					}
+				}
+			}
+		}
+	}
+	out
+}
+
 // ------------------------------------------------------------------ fixtures
 
 pub struct Fixture {
